@@ -15,6 +15,7 @@ import (
 
 	"github.com/bluenviron/gortsplib/v5/pkg/description"
 	"github.com/bluenviron/gortsplib/v5/pkg/format"
+	"github.com/pion/rtp"
 
 	"github.com/bluenviron/mediamtx/internal/conf"
 	"github.com/bluenviron/mediamtx/internal/logger"
@@ -36,6 +37,57 @@ func vf17Formats(n int) []format.Format {
 		&format.G711{PayloadTyp: 8, MULaw: false, SampleRate: 8000, ChannelCount: 1},
 	}
 	return all[:n]
+}
+
+// vf17RTPDesc: formats for a publisher that writes RTP packets. f1 is H264: its frames may span
+// several packets, and only the packet with the marker bit yields a decoded payload.
+func vf17RTPDesc(n int) *description.Session {
+	fs := []format.Format{
+		&format.H264{PayloadTyp: 96, PacketizationMode: 1},
+		&format.G711{PayloadTyp: 0, MULaw: true, SampleRate: 8000, ChannelCount: 1},
+		&format.G711{PayloadTyp: 8, MULaw: false, SampleRate: 8000, ChannelCount: 1},
+	}[:n]
+	d := &description.Session{}
+	for i, f := range fs {
+		typ := description.MediaTypeAudio
+		if i == 0 {
+			typ = description.MediaTypeVideo
+		}
+		d.Medias = append(d.Medias, &description.Media{Type: typ, Formats: []format.Format{f}})
+	}
+	return d
+}
+
+// vf17Packetizer builds the RTP packets of one format: a "frag" packet belongs to a frame that is not
+// complete yet (no marker bit, same timestamp as the packets that follow), a "frame" packet completes it.
+type vf17Packetizer struct {
+	pt  uint8
+	seq uint16
+	ts  uint32
+}
+
+func (p *vf17Packetizer) unit(payload []byte, last bool) *unit.Unit {
+	pkt := &rtp.Packet{
+		Header:  rtp.Header{Version: 2, PayloadType: p.pt, SequenceNumber: p.seq, Timestamp: p.ts, SSRC: 0x17C0FFEE, Marker: last},
+		Payload: payload,
+	}
+	u := &unit.Unit{PTS: int64(p.ts), RTPPackets: []*rtp.Packet{pkt}}
+	p.seq++
+	if last {
+		p.ts += 3000
+	}
+	return u
+}
+
+// vf17UnitBytes: the bytes that identify a delivered unit: the payload, or (RTP publisher) the packet's bytes.
+func vf17UnitBytes(u *unit.Unit, rtpMode bool) []byte {
+	if rtpMode {
+		if len(u.RTPPackets) != 1 {
+			return []byte{0xEF, byte(len(u.RTPPackets))}
+		}
+		return u.RTPPackets[0].Payload
+	}
+	return vf17Bytes(u.Payload)
 }
 
 func vf17Tracks(n int) []conf.AlwaysAvailableTrack {
@@ -119,12 +171,14 @@ type vf17Act struct {
 	F  string   `json:"f"`
 	R  string   `json:"r"`
 	S  []string `json:"S"`
+	K  string   `json:"k"` // Write: "frame" or "frag"
 }
 
 type vf17Case struct {
 	Run  int       `json:"run"`
 	Q    int       `json:"q"`
 	Src  string    `json:"src"`
+	RTP  bool      `json:"rtp"` // replay with a publisher that writes RTP packets
 	Acts []vf17Act `json:"acts"`
 }
 
@@ -150,6 +204,7 @@ type vf17Trace struct {
 	Q     int        `json:"q"`
 	AA    bool       `json:"aa"`
 	One   bool       `json:"oneMedia"`
+	RTP   bool       `json:"rtp"`
 	Src   string     `json:"src"`
 	Steps []vf17Step `json:"steps"`
 }
@@ -157,6 +212,7 @@ type vf17Trace struct {
 var vf17Readers = []string{"r1", "r2"}
 
 type vf17Replay struct {
+	rtp     bool
 	mu      sync.Mutex
 	pending []vf17Cb
 	started map[string]int
@@ -168,7 +224,7 @@ type vf17Replay struct {
 
 func (h *vf17Replay) cb(r string, f string) OnDataFunc {
 	return func(u *unit.Unit) error {
-		pay := vf17Ints(vf17Bytes(u.Payload))
+		pay := vf17Ints(vf17UnitBytes(u, h.rtp))
 		h.mu.Lock()
 		h.pending = append(h.pending, vf17Cb{R: r, F: f, Pay: pay})
 		h.started[r]++
@@ -226,11 +282,13 @@ func vf17RunCase(t *testing.T, c *vf17Case, tr *vf17Trace) {
 		}
 	}
 	tr.Run, tr.Q, tr.Src = c.Run, c.Q, c.Src
-	tr.AA = hasSwitch || c.Run%3 == 2
-	tr.One = !tr.AA && c.Run%3 == 1
+	tr.RTP = c.RTP && !hasSwitch
+	tr.AA = !tr.RTP && (hasSwitch || c.Run%3 == 2)
+	tr.One = !tr.AA && !tr.RTP && c.Run%3 == 1
 	tr.Steps = []vf17Step{}
 
 	h := &vf17Replay{
+		rtp:     tr.RTP,
 		started: map[string]int{}, ended: map[string]int{},
 		gate: map[string]chan error{}, reader: map[string]*Reader{}, done: map[string]chan struct{}{},
 	}
@@ -240,6 +298,8 @@ func vf17RunCase(t *testing.T, c *vf17Case, tr *vf17Trace) {
 		strm.AlwaysAvailable = true
 		strm.AlwaysAvailableTracks = vf17Tracks(2)
 		strm.ReplaceNTP = true
+	} else if tr.RTP {
+		strm.OrigDesc = vf17RTPDesc(2)
 	} else {
 		strm.OrigDesc = vf17Desc(2, tr.One)
 	}
@@ -247,11 +307,12 @@ func vf17RunCase(t *testing.T, c *vf17Case, tr *vf17Trace) {
 		t.Fatalf("Stream.Initialize: %v", err)
 	}
 	orig := vf17Flat(strm.OrigDesc)
+	pk := []*vf17Packetizer{{pt: 96, seq: 1000, ts: 90000}, {pt: 0, seq: 7000, ts: 8000}}
 
 	var subs []*SubStream // subs[i] = sub-stream i+1
 	var subMF [][]vf17MF  // its (media, format) pairs
 	newSub := func() {
-		ss := &SubStream{Stream: strm, UseRTPPackets: false}
+		ss := &SubStream{Stream: strm, UseRTPPackets: tr.RTP}
 		if tr.AA {
 			ss.InDesc = vf17Desc(2, false)
 		}
@@ -276,11 +337,22 @@ func vf17RunCase(t *testing.T, c *vf17Case, tr *vf17Trace) {
 				st.Skipped = true
 				break
 			}
+			if a.K == "frag" && (!tr.RTP || fi != 0) {
+				st.Skipped = true // only an RTP publisher's video frames span several units
+				break
+			}
 			seq++
 			b := []byte{0xC1, 0x17, byte(fi), byte(a.SS), byte(seq >> 8), byte(seq), byte(^seq), 0x5A}
+			if tr.RTP {
+				b[0] = 0x41 // H264: a single NAL unit (non-IDR slice) per packet
+			}
 			st.Pay = vf17Ints(b)
 			st.Cur = a.SS == len(subs)
 			mf := subMF[a.SS-1][fi]
+			if tr.RTP {
+				subs[a.SS-1].WriteUnit(mf.m, mf.f, pk[fi].unit(append([]byte(nil), b...), a.K != "frag"))
+				break
+			}
 			subs[a.SS-1].WriteUnit(mf.m, mf.f, &unit.Unit{
 				PTS:     int64(seq) * 160,
 				Payload: vf17Payload(fi, append([]byte(nil), b...)),
@@ -419,6 +491,7 @@ type vf17Round struct {
 	Q        int         `json:"q"`
 	AA       bool        `json:"aa"`
 	Foreign  bool        `json:"foreign"` // units of the built-in offline publisher may reach the readers
+	RTP      bool        `json:"rtp"`     // the publisher writes RTP packets; two of three units of f1 have no payload
 	NF       int         `json:"nf"`
 	Writes   [][]int64   `json:"writes"`   // uid -> [f, ss, ws, we, chk]
 	Switches [][]int64   `json:"switches"` // [ss, s, e]: ss became the current publisher between s and e
@@ -429,9 +502,12 @@ func vf17StressRound(t *testing.T, run int, seed uint64) *vf17Round {
 	rnd := verifrt.Rand(seed)
 	rd := &vf17Round{Run: run, NF: 3, Switches: [][]int64{{1, 0, 0}}}
 	rd.Q = []int{1, 2, 4, 8, 64}[rnd.IntN(5)]
-	mode := run % 4 // 0,1: plain   2: always-available, direct switch   3: always-available through the offline publisher
-	rd.AA = mode >= 2
+	// 0,1: plain   2: always-available, direct switch   3: always-available through the offline publisher
+	// 4: plain, the publisher writes RTP packets and the frames of f1 span three packets
+	mode := run % 5
+	rd.AA = mode == 2 || mode == 3
 	rd.Foreign = mode == 3
+	rd.RTP = mode == 4
 	oneMedia := mode == 1
 	nPer := 120 + rnd.IntN(160)
 	nss := 1
@@ -445,6 +521,8 @@ func vf17StressRound(t *testing.T, run int, seed uint64) *vf17Round {
 		strm.AlwaysAvailable = true
 		strm.AlwaysAvailableTracks = vf17Tracks(rd.NF)
 		strm.ReplaceNTP = true
+	} else if rd.RTP {
+		strm.OrigDesc = vf17RTPDesc(rd.NF)
 	} else {
 		strm.OrigDesc = vf17Desc(rd.NF, oneMedia)
 	}
@@ -455,7 +533,7 @@ func vf17StressRound(t *testing.T, run int, seed uint64) *vf17Round {
 	orig := vf17Flat(strm.OrigDesc)
 
 	newSub := func() *SubStream {
-		ss := &SubStream{Stream: strm, UseRTPPackets: false}
+		ss := &SubStream{Stream: strm, UseRTPPackets: rd.RTP}
 		if rd.AA {
 			ss.InDesc = vf17Desc(rd.NF, false)
 		}
@@ -482,6 +560,7 @@ func vf17StressRound(t *testing.T, run int, seed uint64) *vf17Round {
 		wr := verifrt.Rand(wseed)
 		mf := vf17Flat(ss.InDesc)[f]
 		base := ((ssn-1)*rd.NF + f) * nPer
+		pk := &vf17Packetizer{pt: []uint8{96, 0, 8}[f], seq: uint16(wr.Uint32()), ts: wr.Uint32() >> 1}
 		for i := 0; i < nPer; i++ {
 			uid := base + i + 1
 			w := rd.Writes[uid-1]
@@ -489,6 +568,10 @@ func vf17StressRound(t *testing.T, run int, seed uint64) *vf17Round {
 			b := []byte{0xC1, 0x17, byte(uid >> 24), byte(uid >> 16), byte(uid >> 8), byte(uid),
 				byte(chk >> 24), byte(chk >> 16), byte(chk >> 8), byte(chk), 0x5A, 0xA5}
 			u := &unit.Unit{PTS: int64(i) * 160, Payload: vf17Payload(f, b)}
+			if rd.RTP {
+				b[0] = 0x41 // H264: one NAL unit per packet; a frame of f1 = three packets, marker on the third
+				u = pk.unit(b, f != 0 || i%3 == 2)
+			}
 			w[2] = clk.Add(1)
 			ss.WriteUnit(mf.m, mf.f, u)
 			w[3] = clk.Add(1)
@@ -540,9 +623,9 @@ func vf17StressRound(t *testing.T, run int, seed uint64) *vf17Round {
 				ff := f
 				r.OnData(orig[ff-1].m, orig[ff-1].f, func(u *unit.Unit) error {
 					tstamp := clk.Add(1)
-					b := vf17Bytes(u.Payload)
+					b := vf17UnitBytes(u, rd.RTP)
 					uid, chk := 0, 0
-					if len(b) == 12 && b[0] == 0xC1 && b[1] == 0x17 && b[10] == 0x5A && b[11] == 0xA5 {
+					if len(b) == 12 && (b[0] == 0xC1 || b[0] == 0x41) && b[1] == 0x17 && b[10] == 0x5A && b[11] == 0xA5 {
 						uid = int(b[2])<<24 | int(b[3])<<16 | int(b[4])<<8 | int(b[5])
 						chk = int(b[6])<<24 | int(b[7])<<16 | int(b[8])<<8 | int(b[9])
 						if uid < 1 || uid > len(rd.Writes) {
